@@ -46,6 +46,15 @@ CHECKS = {
               'skipping instances whose IEEE reference sides already disagree, (iii) add/mul/sub on random well-typed PatternedTensor operands against '
               'the same call on dense operands. Exploration level; the pools are exhausted, the carrier is sampled.'),
         design_ref='DESIGN.md §4 C08'),
+    'C16': dict(
+        technique='invariant-at-a-hook monitor over random API histories: class invariants, post-conditions, atomicity snapshots, copy-independence probe, == equivalence (runtime monitoring; icontract invariants in the thorough tier)',
+        text=('Runtime monitoring: random histories of 8..40 public calls (about 30 % failing by construction) are executed on a pool of Graph, HRG, '
+              'FactorGraph and FGG objects; after every call the well-formedness invariants of the statement are evaluated on every object through '
+              'the public accessors, successful calls are checked against their post-condition, raising calls against a before/after snapshot '
+              '(atomicity), copies for equality, well-formedness and independence (incl. label tables, domains, factor weights), and == for being '
+              'an equivalence that distinguishes. The thorough tier additionally installs icontract class invariants on Graph/HRG so objects the '
+              'library builds internally are checked around every public method. One recorded open finding (rhs mutated after rule creation).'),
+        design_ref='DESIGN.md §4 C16'),
 }
 
 NOT_BUILT = {}
